@@ -397,40 +397,42 @@ Section CompositeFacts.
 
   (* ---- find_system ---- *)
   Lemma comp_find_none : forall srcs i k v log,
-    comp_find i srcs k v = (log, None) ->
-    (forall s, In s srcs -> find_system s k v = None) /\ log = seq i (length srcs).
+    comp_find i srcs k v = (log, Ok None) ->
+    (forall s, In s srcs -> find_system s k v = Ok None) /\ log = seq i (length srcs).
   Proof.
     induction srcs as [|s r IH]; intros i k v log E; cbn [comp_find] in E.
     - injection E as <-. split; [intros s []|reflexivity].
-    - destruct (find_system s k v) as [x|] eqn:Ef; [discriminate|].
+    - destruct (find_system s k v) as [[x|]|e] eqn:Ef; [discriminate| |discriminate].
       destruct (comp_find (S i) r k v) as [log' out'] eqn:Er. injection E as <- ->.
       destruct (IH _ _ _ _ Er) as [H1 H2]. split.
       + intros s' [<-|Hin]; auto.
       + cbn [length seq]. now rewrite H2.
   Qed.
 
-  Lemma comp_find_some : forall srcs i k v log x,
-    comp_find i srcs k v = (log, Some x) ->
-    exists j s, nth_error srcs j = Some s /\ find_system s k v = Some x /\
-                (forall j' s', j' < j -> nth_error srcs j' = Some s' -> find_system s' k v = None) /\
+  (* an answer or an exception: it is the first source's that did not say None, nobody is asked after it *)
+  Lemma comp_find_answer : forall srcs i k v log a,
+    comp_find i srcs k v = (log, a) -> a <> Ok None ->
+    exists j s, nth_error srcs j = Some s /\ find_system s k v = a /\
+                (forall j' s', j' < j -> nth_error srcs j' = Some s' -> find_system s' k v = Ok None) /\
                 log = seq i (S j).
   Proof.
-    induction srcs as [|s r IH]; intros i k v log x E; cbn [comp_find] in E; [discriminate|].
-    destruct (find_system s k v) as [x'|] eqn:Ef.
+    induction srcs as [|s r IH]; intros i k v log a E Ha; cbn [comp_find] in E; [injection E as _ <-; congruence|].
+    destruct (find_system s k v) as [[x|]|e] eqn:Ef.
     - injection E as <- <-. exists 0, s. repeat split; auto. intros j' s' Hlt. lia.
     - destruct (comp_find (S i) r k v) as [log' out'] eqn:Er. injection E as <- ->.
-      destruct (IH _ _ _ _ _ Er) as (j & s0 & Hn & Hf & Hb & Hl).
+      destruct (IH _ _ _ _ _ Er Ha) as (j & s0 & Hn & Hf & Hb & Hl).
       exists (S j), s0. repeat split; auto.
       + intros [|j'] s' Hlt Hn'; cbn [nth_error] in Hn'.
         * now injection Hn' as <-.
         * apply (Hb j' s'); [lia | assumption].
       + now rewrite Hl.
+    - injection E as <- <-. exists 0, s. repeat split; auto. intros j' s' Hlt. lia.
   Qed.
 
   Lemma comp_find_spec : forall srcs i k v, comp_find i srcs k v = find_spec i srcs k v.
   Proof.
     unfold find_spec. induction srcs as [|s r IH]; intros i k v; cbn [comp_find map first_some length]; [reflexivity|].
-    destruct (find_system s k v) as [x|]; [reflexivity|].
+    destruct (find_system s k v) as [[x|]|e]; [reflexivity| |reflexivity].
     rewrite IH. destruct (first_some (map (fun s0 => find_system s0 k v) r)) as [[j x]|]; reflexivity.
   Qed.
 
@@ -468,7 +470,7 @@ Section CompositeFacts.
   Qed.
 
   Lemma chain_const_version : forall outs sys pd pv d v,
-    state sys pd pv (map (fun o => const_source (Ok o) None) outs) = Ok (d, v) ->
+    state sys pd pv (map (fun o => const_source (Ok o) (Ok None)) outs) = Ok (d, v) ->
     v = chain_version pv (map snd outs).
   Proof.
     induction outs as [|[nd nv] r IH]; intros sys pd pv d v E.
@@ -480,7 +482,7 @@ Section CompositeFacts.
   Qed.
 
   Lemma chain_const_data : forall outs sys pd pv d v,
-    state sys pd pv (map (fun o => const_source (Ok o) None) outs) = Ok (d, v) ->
+    state sys pd pv (map (fun o => const_source (Ok o) (Ok None)) outs) = Ok (d, v) ->
     fold_left (fun acc nd => bind acc (fun a => merge ml ms a nd)) (map fst outs) (Ok pd) = Ok d.
   Proof.
     induction outs as [|[nd nv] r IH]; intros sys pd pv d v E.
